@@ -265,7 +265,7 @@ func main() {
 		nPure2 := c.Scale(260, 9000)
 		for i := 0; i < nPure2; i++ {
 			p2, used := Pure2Program(c.Rng.Fork())
-			add(&item{name: fmt.Sprintf("pure2:%d", i), stream: "pure2", build: p2, used: used})
+			add(&item{name: fmt.Sprintf("pure2:%d", i), stream: "pure2", build: p2, used: used, refused: used["range-step"] > 0})
 		}
 		nFresh, nSort, nSortBig := c.Scale(120, 5000), c.Scale(80, 4000), c.Scale(16, 800)
 		for i := 0; i < nFresh; i++ {
